@@ -9,6 +9,7 @@ import JanetModel.GC.WeakLemmas
 import JanetModel.GC.RingMark
 import JanetModel.GC.SymSweep
 import JanetModel.GC.ParserMark
+import JanetModel.GC.RootWin
 
 namespace JanetModel.Props.C01
 open JanetModel.GC Std
@@ -703,5 +704,68 @@ example :
     sitesKeepInv [("janet_parser_eof", false, [.flagOnlyDead])] = false := by decide
 
 end parser
+
+section rootwin
+open JanetModel.GC.RootWin
+open JanetModel.Gen.GCRoot (edges mayCollectMask collectId gcallocId runVmId nFuncs family familyClosure beginEndRows beginEndEscapes mayWindows)
+
+/-- the finite side of the call-graph certificate, evaluated by the kernel on the regenerated graph (6 757 edges over 1 501
+functions on the pinned tree): the complement of the claimed may-collect set is closed under every call edge - direct,
+type-compatible indirect, address-mentioned - and `janet_collect` itself is in the set -/
+theorem callgraph_maycollect_closed :
+    closedOK edges mayCollectMask = true ∧ inMask mayCollectMask collectId = true := by
+  constructor <;> decide +kernel
+
+/-- **A function outside the regenerated may-collect set can never be interrupted by a collection**: no chain of calls, of any
+length, leads from it to `janet_collect`.  Every C local of such a function (and of everything it calls) is safe without
+being rooted. -/
+theorem nocollect_sound (f : Nat) (hf : inMask mayCollectMask f = false) : ¬ Reaches edges f collectId :=
+  outside_never_reaches callgraph_maycollect_closed.1 callgraph_maycollect_closed.2 hf
+
+/-- allocation does not collect (`janet_gcalloc` only adds to `next_collection`; collections happen at the interpreter's
+safepoints and in `gccollect`): an allocation-between-allocation window is never by itself a danger -/
+theorem alloc_cannot_collect : ¬ Reaches edges gcallocId collectId := nocollect_sound _ (by decide +kernel)
+
+/-- **the delimited family**: the value builders (`janet_{tuple,struct,string,abstract}_begin/_end`, `janet_tuple_n`,
+`janet_table_clone`, `janet_array_n`, `janet_table_to_struct` …), marshal / unmarshal with their state, PEG compilation and
+the parser - and everything they can call (452 functions on the pinned tree) - cannot be interrupted by a collection. -/
+theorem builder_family_cannot_collect (f : Nat) (hf : f ∈ familyClosure) : ¬ Reaches edges f collectId :=
+  nocollect_sound f (allOutside_mem (by decide +kernel : allOutside mayCollectMask familyClosure = true) hf)
+
+theorem family_in_closure : family.all (fun f => familyClosure.contains f) = true := by decide +kernel
+
+/-- **every builder window is covered**: in every function of the library, every call made on some control-flow path between
+a `_begin` call and the matching `_end` (while the unfinished tuple / struct / string / abstract is held in a C local only)
+goes to a function that cannot reach `janet_collect`; and no unfinished object leaves its function. -/
+theorem begin_end_windows_covered :
+    beginEndEscapes = [] ∧ ∀ r ∈ beginEndRows, ¬ Reaches edges r.2.2 collectId := by
+  refine ⟨by decide, fun r hr => nocollect_sound _ ?_⟩
+  have h : allOutside mayCollectMask (beginEndRows.map fun r => r.2.2) = true := by decide +kernel
+  exact allOutside_mem h (List.mem_map_of_mem hr)
+
+/-- What is NOT certified (tested only, by the schedule-differential runs): the functions that CAN be interrupted by a
+collection.  Every function of the library is either uninterruptible (previous theorems) or listed in the regenerated table
+`mayWindows` together with its number of (allocating call, later collecting call) pairs; the protection of those windows -
+value already stored on the fiber stack, `janet_gclock`, value dead afterwards - is not established statically.
+Missing for the full statement: a liveness / rootedness analysis of those 110 functions (3 713 of the 4 170 raw pairs lie
+in `run_vm`). -/
+theorem c_local_windows_partial (f : Nat) (hf : f < nFuncs) :
+    (¬ Reaches edges f collectId) ∨ f ∈ mayWindows.map Prod.fst := by
+  have h : coveredOrListed mayCollectMask nFuncs (mayWindows.map Prod.fst) = true := by decide +kernel
+  have := (List.all_eq_true.mp h) f (List.mem_range.mpr hf)
+  cases hm : inMask mayCollectMask f with
+  | false => exact Or.inl (nocollect_sound f hm)
+  | true =>
+    rw [hm] at this
+    simp at this
+    exact Or.inr (by simpa using this)
+
+/-- non-vacuity: the interpreter does reach the collector (so the mask is not vacuous), and the closure condition rejects a
+mask that leaves out a caller of `janet_collect` -/
+example : Reaches edges runVmId collectId := .step (by decide) (by decide +kernel) (.refl _)
+example : closedOK edges (mayCollectMask - 2 ^ runVmId) = false := by decide +kernel
+example : inMask mayCollectMask runVmId = true ∧ inMask mayCollectMask gcallocId = false := by constructor <;> decide +kernel
+
+end rootwin
 
 end JanetModel.Props.C01
